@@ -60,7 +60,7 @@ def handle : Handler
   | "alias_lcm", [.num r, .num u, .num v, .num _, .num v0, .num v1, .num v2, .num v3] => do
     let r ← idx r; let u ← idx u; let v ← idx v
     let s0 := ofInts [v0, v1, v2, v3]
-    answer s0 (fun _ => false) (mpz_lcm r u v s0)
+    answer s0 (· == r) (mpz_lcm r u v s0)   -- the general arm ends in mpz_mul (r, g, v): free + allocate
   | "alias_invert", [.num r, .num x, .num n, .num _, .num v0, .num v1, .num v2, .num v3] => do
     let r ← idx r; let x ← idx x; let n ← idx n
     let s0 := ofInts [v0, v1, v2, v3]
